@@ -182,6 +182,45 @@ int main(int argc, char **argv) {
       if (setjmp(on_error)) { printf("esc err\n"); continue; }
       char *q; int c = read_escaped_char(&q, p);
       printf("esc %x %d\n", (unsigned)c, (int)(q - p));
+    } else if (!strcmp(op, "fhex") && arg) {
+      int len; char *p = parse_bytes(arg, &len);
+      if (!p || len != 1) { printf("bad-op\n"); continue; }
+      printf("fhex %x\n", (unsigned)from_hex(p[0]));
+    } else if (!strcmp(op, "ruc") && arg) {
+      char *arg2 = strtok(NULL, " \n");
+      int len; char *p = arg2 ? parse_bytes(arg2, &len) : NULL;
+      if (!p) { printf("bad-op\n"); continue; }
+      printf("ruc %x\n", read_universal_char(p, atoi(arg)));
+    } else if (!strcmp(op, "sle") && arg) {
+      char *arg2 = strtok(NULL, " \n");
+      int len; char *p = arg2 ? parse_bytes(arg2, &len) : NULL;
+      int start = atoi(arg);
+      if (!p || start > len) { printf("bad-op\n"); continue; }
+      set_file(p);
+      arm();
+      if (setjmp(on_error)) { printf("sle err\n"); continue; }
+      printf("sle %d\n", (int)(string_literal_end(p + start) - p));
+    } else if (!strcmp(op, "rsl") && arg) {
+      char *a2 = strtok(NULL, " \n"), *a3 = strtok(NULL, " \n");
+      int len; char *p = a3 ? parse_bytes(a3, &len) : NULL;
+      int quote = a2 ? atoi(a2) : 0;
+      if (!p || quote >= len) { printf("bad-op\n"); continue; }
+      set_file(p);
+      arm();
+      if (setjmp(on_error)) { printf("rsl err %s\n", err_name()); continue; }
+      Token *tok = !strcmp(arg, "n") ? read_string_literal(p, p + quote)
+                 : !strcmp(arg, "u16") ? read_utf16_string_literal(p, p + quote) : read_utf32_string_literal(p, p + quote, ty_uint);
+      printf("rsl %d ", tok->ty->array_len); print_units(tok); printf(" %d\n", tok->len);
+    } else if (!strcmp(op, "rcl") && arg) {
+      char *a2 = strtok(NULL, " \n");
+      int len; char *p = a2 ? parse_bytes(a2, &len) : NULL;
+      int quote = atoi(arg);
+      if (!p || quote >= len) { printf("bad-op\n"); continue; }
+      set_file(p);
+      arm();
+      if (setjmp(on_error)) { printf("rcl err %s\n", err_name()); continue; }
+      Token *tok = read_char_literal(p, p + quote, ty_int);
+      printf("rcl %x %d\n", (unsigned)tok->val, tok->len - 1);
     } else if (!strcmp(op, "lit") && arg) {
       int len; char *p = parse_bytes(arg, &len);
       if (!p) { printf("bad-op\n"); continue; }
